@@ -38,7 +38,7 @@ func (f *Fedi) serveWebfinger(host, user, actorID string) {
 	h.Routes[q] = HTTPResponse("HTTP/1.0 200 OK", []string{"Content-Type: application/jrd+json"},
 		mustJSON(Doc{"subject": "acct:" + user + "@" + host, "links": []any{
 			Doc{"rel": "http://webfinger.net/rel/profile-page", "type": "text/html", "href": "https://" + host + "/@" + user},
-			Doc{"rel": "self", "type": "application/activity+json", "href": actorID}}}), "\r\n")
+			Doc{"rel": "self", "type": []string{"application/activity+json", "application/activity+json", "application/ld+json; profile=\"https://www.w3.org/ns/activitystreams\"", "application/activity+json; charset=utf-8"}[f.t.Draw(4)], "href": actorID}}}), "\r\n")
 }
 
 // createItem makes a Create activity by actorID embedding a fresh Note.
@@ -132,6 +132,9 @@ func scenC11(r *Run) {
 	wide := t.Chance(1, 12)
 	if wide {
 		ns = 9 + t.Draw(20)
+		if t.Chance(1, 6) {
+			ns = 63 + t.Draw(10) // more sources than any per-request batch or group size one would pick
+		}
 		f.MaxPages, f.MaxItems = 1, 3
 		r.S.Probe("c11_wide_feed")
 	}
@@ -173,6 +176,10 @@ func scenC11(r *Run) {
 			}
 			if t.Chance(1, 5) {
 				return time.Time{}
+			}
+			if t.Chance(1, 8) {
+				// a date from before the calendar's first year (legal RFC 3339): older than no date at all
+				return time.Date(0, time.Month(1+t.Draw(12)), 1+t.Draw(28), 0, 0, 0, 0, time.UTC)
 			}
 			return base.Add(time.Duration(t.Draw(5)) * 30 * time.Minute)
 		}
